@@ -514,6 +514,11 @@ class LogicalLinkController(object):
         except sec.EncryptionError:
             self.terminate(reason="encryption error")
             raise SystemExit
+        except Exception:
+            # any other error must still shut down the local services,
+            # blocked socket calls would otherwise never return
+            self.terminate(reason="internal error")
+            raise
         finally:
             log.debug("llc run loop terminated on initiator")
 
@@ -583,6 +588,11 @@ class LogicalLinkController(object):
         except sec.EncryptionError:
             self.terminate(reason="encryption error")
             raise SystemExit
+        except Exception:
+            # any other error must still shut down the local services,
+            # blocked socket calls would otherwise never return
+            self.terminate(reason="internal error")
+            raise
         finally:
             log.debug("llc run loop terminated on target")
 
